@@ -560,9 +560,12 @@ def run(tier, seed, replay):
                 # time resolution of the search: norm_tol x threshold / (local decay rate of the squared norm)
                 local = [10 * (ntol * tg / max(sl, 1e-3) + tt) + 1e-6 + (1e-5 if not scale < 1 else 0.0) for tg, sl in ref_slopes]
                 dt_tol = max([dt_tol] + local) if scale >= 1 else max(local + [1e-7])
-                if dts and max(dts) > dt_tol:
+                # every jump inherits the timing error of the ones before it (the state after a jump that happened a little late
+                # is a little different): the k-th jump is allowed k + 1 times the resolution of one search
+                over_ = [(x_, k_) for k_, x_ in enumerate(dts) if x_ > dt_tol * (1 + k_)]
+                if over_:
                     v(f"jump-time:{opt.get('method', 'adams')}:{'default' if not opt else ','.join(sorted(opt))}",
-                      f"collapse time off by {max(dts):.2e} (allowed {dt_tol:.1e}) for seed {sd}: {got_t} vs {[a for a, _ in ref_jumps]}", cfg)
+                      f"collapse number {over_[0][1]} off by {over_[0][0]:.2e} (allowed {dt_tol * (1 + over_[0][1]):.1e}) for seed {sd}: {got_t} vs {[a for a, _ in ref_jumps]}", cfg)
                     continue
                 sdiff = 0.0
                 for a, b in zip(r.runs_states[0], ref_states):
